@@ -6,7 +6,8 @@ Inductive claim :=
 | ClPath (k : string) (p : path)       (* root[k] = value at path p of the final root value *)
 | ClSame (k1 k2 : string)              (* root[k1] = root[k2] (round trips) *)
 | ClToStr (k1 k2 : string)             (* root[k1] = string form of the final value root[k2] *)
-| ClConst (k : string) (s : string).   (* root[k] is the string s (the documented function of literal arguments) *)
+| ClConst (k : string) (s : string)    (* root[k] is the string s (the documented function of literal arguments) *)
+| ClLit (k : string) (e : expr).       (* root[k] is the value of the literal e (an import's own value under imports.<name>) *)
 
 Record case := {
   c_name : string; c_def : envdef; c_world : world; c_obs : iobs;
@@ -71,6 +72,11 @@ Definition claim_fails (root : json) (c : claim) : bool :=
       | Some a => negb (jeq a (JStr s))
       | None => true
       end
+  | ClLit k e =>
+      match jaccess [AKey k] root, lit_json wire_fuel e with
+      | Some a, Some b => negb (jeq a b)
+      | _, _ => true
+      end
   end.
 
 (* claims are only meaningful for evaluations without diagnostics *)
@@ -131,6 +137,7 @@ Definition dec_claim (x : sexp) : option claim :=
   match x with
   | SList [Atom "path"; k; p] => match atom_str k, dec_path p with Some k, Some p => Some (ClPath k p) | _, _ => None end
   | SList [Atom "same"; a; b] => match atom_str a, atom_str b with Some a, Some b => Some (ClSame a b) | _, _ => None end
+  | SList [Atom "lit"; a; e] => match atom_str a, dec_expr wire_fuel e with Some a, Some e => Some (ClLit a e) | _, _ => None end
   | SList [Atom "const"; a; b] => match atom_str a, atom_str b with Some a, Some b => Some (ClConst a b) | _, _ => None end
   | SList [Atom "tostr"; a; b] => match atom_str a, atom_str b with Some a, Some b => Some (ClToStr a b) | _, _ => None end
   | _ => None
